@@ -28,6 +28,11 @@ pub enum Op {
     ForLoopDrop,
     /// clone the iterator, drop the clone (the clone's elements have their own identities)
     CloneDrop,
+    /// `it.clone_from(&other)`: the destination's remaining elements are released, one of their destructors panics;
+    /// argument = how many elements the source iterator has already yielded from its front
+    IterCloneFrom(usize),
+    /// `arr.clone_from(&other)` (0 stack, 1 boxed): one of the destination's old elements panics in its destructor
+    ArrCloneFrom(u8),
     // whole values
     ArrDrop,
     BoxDrop,
@@ -81,7 +86,39 @@ fn exec_typed<T: Elem + Clone + Default, N: ArrayLength>(case: &Case, acc: &mut 
     let mut fired_in_op = false;
     let mut expect_panic_payload_ok = true;
     match case.op {
-        Op::IterDrop | Op::Nth(_) | Op::NthBack(_) | Op::Count | Op::Last | Op::FoldDrop | Op::RFoldDrop | Op::ForLoopDrop | Op::CloneDrop => {
+        Op::ArrCloneFrom(form) => {
+            let other: GenericArray<T, N> = GenericArray::generate(|i| T::mk(300 + i as u32));
+            if n > 0 {
+                arm(&ids, e % n);
+            }
+            if form == 0 {
+                let mut dst = arr;
+                let r = engine::catch(|| dst.clone_from(&other));
+                fired_in_op = registry::drop_panic_fired();
+                registry::clear_drop_panic();
+                if let Err(c) = r {
+                    expect_panic_payload_ok &= c.injected;
+                }
+                // the caller keeps both: whatever the destination holds now must be live
+                let _ = engine::catch(|| dst.iter().for_each(|x| { x.get(); }));
+                let _ = engine::catch(move || drop(dst));
+            } else {
+                let mut dst = Box::new(arr);
+                let other_b = Box::new(other.clone());
+                let r = engine::catch(|| dst.clone_from(&other_b));
+                fired_in_op = registry::drop_panic_fired();
+                registry::clear_drop_panic();
+                if let Err(c) = r {
+                    expect_panic_payload_ok &= c.injected;
+                }
+                let _ = engine::catch(|| dst.iter().for_each(|x| { x.get(); }));
+                let _ = engine::catch(move || drop(dst));
+                drop(other_b);
+            }
+            other.iter().for_each(|x| { x.get(); });
+            drop(other);
+        }
+        Op::IterDrop | Op::Nth(_) | Op::NthBack(_) | Op::Count | Op::Last | Op::FoldDrop | Op::RFoldDrop | Op::ForLoopDrop | Op::CloneDrop | Op::IterCloneFrom(_) => {
             let mut it = arr.into_iter();
             for _ in 0..case.front {
                 held.extend(it.next());
@@ -105,6 +142,43 @@ fn exec_typed<T: Elem + Clone + Default, N: ArrayLength>(case: &Case, acc: &mut 
                     }
                     registry::clear_drop_panic();
                     drop(it);
+                }
+                Op::IterCloneFrom(sf) => {
+                    let other: GenericArray<T, N> = GenericArray::generate(|i| T::mk(300 + i as u32));
+                    let mut src = other.into_iter();
+                    for _ in 0..sf.min(n) {
+                        held.extend(src.next());
+                    }
+                    if live > 0 {
+                        arm(&ids[case.front..n - case.back], e % live);
+                    }
+                    let r = engine::catch(|| it.clone_from(&src));
+                    fired_in_op = registry::drop_panic_fired();
+                    registry::clear_drop_panic();
+                    if let Err(c) = r {
+                        expect_panic_payload_ok &= c.injected;
+                    }
+                    // the caller caught the panic and keeps using both iterators: everything they yield must be live
+                    let r2 = engine::catch(|| {
+                        let mut out = vec![];
+                        while let Some(x) = it.next() {
+                            x.get();
+                            out.push(x);
+                            if let Some(y) = it.next_back() {
+                                y.get();
+                                out.push(y);
+                            }
+                        }
+                        out
+                    });
+                    if let Ok(v) = r2 {
+                        held.extend(v);
+                    }
+                    let _ = engine::catch(move || drop(it));
+                    for x in src.as_slice() {
+                        x.get();
+                    }
+                    drop(src);
                 }
                 Op::Nth(a) | Op::NthBack(a) => {
                     // e is an index into the live range
@@ -414,7 +488,7 @@ pub fn exec(case: &Case, acc: &mut Acc) -> Result<(), String> {
 }
 
 fn ops_for(len: usize, n: usize) -> Vec<Op> {
-    let mut v = vec![Op::IterDrop, Op::Count, Op::Last, Op::FoldDrop, Op::RFoldDrop, Op::ForLoopDrop, Op::CloneDrop];
+    let mut v = vec![Op::IterDrop, Op::Count, Op::Last, Op::FoldDrop, Op::RFoldDrop, Op::ForLoopDrop, Op::CloneDrop, Op::IterCloneFrom(0), Op::IterCloneFrom(1), Op::IterCloneFrom(n)];
     for a in 0..=len + 2 {
         v.push(Op::Nth(a));
         v.push(Op::NthBack(a));
@@ -426,7 +500,7 @@ fn ops_for(len: usize, n: usize) -> Vec<Op> {
 }
 
 fn whole_ops(n: usize) -> Vec<Op> {
-    let mut v = vec![Op::ArrDrop, Op::BoxDrop, Op::NestedDrop, Op::CollectLong, Op::BoxedCollectLong, Op::TryFromVecWrongLen];
+    let mut v = vec![Op::ArrDrop, Op::BoxDrop, Op::NestedDrop, Op::CollectLong, Op::BoxedCollectLong, Op::TryFromVecWrongLen, Op::ArrCloneFrom(0), Op::ArrCloneFrom(1)];
     for c in 0..n {
         v.push(Op::CollectShort(c));
         v.push(Op::BoxedCollectShort(c));
@@ -491,7 +565,7 @@ fn exhaustive(nmax: usize) -> Vec<Case> {
 
 fn random_strategy() -> impl Strategy<Value = Case> {
     let lens: &'static [usize] = &[9, 10, 11, 12, 16, 31, 32, 33, 64, 100, 255, 256, 1000, 1024];
-    (0..lens.len(), any::<bool>(), any::<u16>(), any::<u16>(), 0usize..40, any::<u16>(), any::<u16>()).prop_map(move |(li, zst, fs, bs, opk, a, es)| {
+    (0..lens.len(), any::<bool>(), any::<u16>(), any::<u16>(), 0usize..44, any::<u16>(), any::<u16>()).prop_map(move |(li, zst, fs, bs, opk, a, es)| {
         let n = lens[li];
         let front = (fs as usize * (n + 1)) >> 16;
         let back = (bs as usize * (n - front + 1)) >> 16;
@@ -513,6 +587,9 @@ fn random_strategy() -> impl Strategy<Value = Case> {
             4 => Op::RFoldDrop,
             5 => Op::ForLoopDrop,
             6 => Op::CloneDrop,
+            40 | 41 => Op::IterCloneFrom(arg.min(n)),
+            42 => Op::ArrCloneFrom(0),
+            43 => Op::ArrCloneFrom(1),
             7..=14 => Op::Nth(arg),
             15..=22 => Op::NthBack(arg),
             23 => Op::ArrDrop,
@@ -534,7 +611,7 @@ fn random_strategy() -> impl Strategy<Value = Case> {
             39 if es % 2 == 0 => Op::ZipMixedDrop((es % 4 / 2) as u8),
             _ => Op::TryFromVecWrongLen,
         };
-        let (front, back) = if opk >= 23 { (0, 0) } else { (front, back) };
+        let (front, back) = if opk >= 23 && opk != 40 && opk != 41 { (0, 0) } else { (front, back) };
         Case { zst, n, front, back, op, e: (es as usize * (2 * n + 2)) >> 16, big: !zst && es % 3 == 0 }
     })
 }
@@ -570,8 +647,8 @@ pub fn main() {
             prop: PROP,
             level: "fault_enumeration",
             rule: "case = (operation, N, iterator position (front, back), argument, the single element e whose destructor panics once). \
-                   Enumerated completely for N in 0..=nmax: iterator drop/nth(a)/nth_back(a)/count/last/fold/rfold/for-loop/clone-drop from every (front, back) with every a in 0..=len+2 and usize::MAX and every e in the live range; \
-                   element kinds: 24-byte, 96-byte and zero-sized drop-tracked; whole-value operations (array, Box, nested array drop; zips of a plain array with a tracked one; too-short/too-long collect, stack and boxed; builder/consumer dropped at every position; map/zip/fold whose closure drops its argument) with every e. Larger N sampled with proptest. \
+                   Enumerated completely for N in 0..=nmax: iterator drop/nth(a)/nth_back(a)/count/last/fold/rfold/for-loop/clone-drop/clone_from (as destination, source in three positions) from every (front, back) with every a in 0..=len+2 and usize::MAX and every e in the live range; \
+                   element kinds: 24-byte, 96-byte and zero-sized drop-tracked; whole-value operations (array, Box, nested array drop; clone_from into an array / boxed array; zips of a plain array with a tracked one; too-short/too-long collect, stack and boxed; builder/consumer dropped at every position; map/zip/fold whose closure drops its argument) with every e. Larger N sampled with proptest. \
                    After the panic is caught the caller keeps using the iterator (drains it from both ends), so a stale read is observed, not just a second drop. \
                    Oracle: per-element drop count <= 1, no observation after drop, no garbage drop; leaks are allowed and only counted. \
                    non-trivial = the chosen destructor actually ran and panicked inside the operation; distinct = distinct case tuples",
